@@ -232,7 +232,19 @@ def scanner_obligations(ctx, rule_prefix: str = ""):
             start = v.args[1] if len(v.args) > 1 else kwarg(v, "start")
             if start is None or _c(start) == 0:
                 continue  # first search of this haystack, from its beginning
-            if isinstance(start, ast.BinOp) and isinstance(start.op, ast.Add) and ((dotted(start.left) == pvar and _c(start.right) == 1) or (dotted(start.right) == pvar and _c(start.left) == 1)):
+            # a start held in a temporary (`start = p + 1; p = hay.find(needle, start)`): the temporary's only definition
+            # dominates the search and the match index is not rebound between the two
+            if isinstance(start, ast.Name) and start.id != pvar:
+                sd = [(s2, v2) for s2, v2 in assignments_to(f.node, start.id) if v2 is not None]
+                cfg4 = s.cfg
+                if len(sd) == 1 and len(assignments_to(f.node, start.id)) == 1 and cfg4.has(sd[0][0]) and cfg4.has(st) and cfg4.dominates(cfg4.node(sd[0][0]), cfg4.node(st)):
+                    n0, n1 = cfg4.node(sd[0][0]), cfg4.node(st)
+                    between = [cfg4.node(s3) for s3, _v3 in assignments_to(f.node, pvar) if s3 is not st and cfg4.has(s3)
+                               and cfg4.reaches(n0, cfg4.node(s3), avoiding=[n1]) and cfg4.reaches(cfg4.node(s3), n1, avoiding=[n0])]
+                    if not between:
+                        start = sd[0][1]
+            ps = sympoly(start) if start is not None else None
+            if ps is not None and pvar and (ps - SymPoly.atom(pvar)).const_value() == 1:
                 adv_finds.append(v)
                 continue
         bad_defs.append(src(v) if v is not None else src(st)[:40])
